@@ -7,6 +7,7 @@ import (
 	"crypto/sha256"
 	"encoding/hex"
 	"encoding/json"
+	"errors"
 	"fmt"
 	"math"
 	"math/big"
@@ -276,6 +277,13 @@ func (g GV) build() any {
 			return tagged{Name: "n", Age: 3, skip: 1}
 		case 11:
 			return withChan{A: 1, C: valueChans[0]}
+		case 12:
+			// a flyt.Result held AS the value (a struct with unexported fields: JSON sees {});
+			// the one field of the term says whether it is an error Result
+			if len(g.Elems) == 1 && g.Elems[0].B {
+				return flyt.NewErrorResult(errHeld)
+			}
+			return flyt.NewResult(41)
 		default:
 			return st3{F: g.Elems[0].build().(float64)}
 		}
@@ -409,6 +417,8 @@ func encodeGV(x any) GV {
 		return GV{T: "struct", ID: 10}
 	case withChan:
 		return GV{T: "struct", ID: 11}
+	case flyt.Result:
+		return GV{T: "struct", ID: 12, Elems: []GV{{T: "bool", B: t.IsError()}}}
 	}
 	rv := reflect.ValueOf(x)
 	switch rv.Kind() {
@@ -494,6 +504,8 @@ func (g GV) Coq() string {
 	}
 	return "GNil"
 }
+
+var errHeld = errors.New("held error")
 
 // ---------------------------------------------------------------- results
 
